@@ -9,6 +9,15 @@ Events (the environment's alphabet; an event that does not apply in the current 
   cfail                                     the pending endpoint attempt fails
   prepok | prepfail                         the pending prepareConnection Deferred fires
   drop:<i>                                  the i-th open connection (creation order) is lost
+  drop:<i>:<prog>                           … and the APPLICATION protocol's own connectionLost handler (user code, run by
+                                            _ReconnectingProtocolProxy.connectionLost before the service is notified) does
+                                            <prog>: letters w / l / m (calls whenConnected() / (1) / (2)), S (startService),
+                                            T (stopService), then optionally a final x (raises an Exception subclass) or
+                                            b (raises a BaseException subclass).  The reactor would log that exception;
+                                            here it comes back as outcome `!H`.
+  stop! | when:<k>!                         same as stop / when:<k>, but the consumer's callback on the returned Deferred raises
+  stop^ | when:<k>^                         … the consumer's callback calls startService() (a re-entrant start: automat
+                                            postpones it to the end of the transition that fired the Deferred)
   adv:<t>                                   clock.advance(t)
 """
 import hashlib
@@ -18,15 +27,30 @@ from twisted.internet import defer, task
 from twisted.internet.protocol import Factory, Protocol
 from twisted.python.failure import Failure
 
-HEADLINE = "TwistedProps.C58.no_rejected_event_partial / at_most_one_connection_or_attempt_partial"
+HEADLINE = ("TwistedProps.C58.no_rejected_event_partial / at_most_one_connection_or_attempt_partial / "
+            "unsolicited_drop_schedules_retry_partial / drop_notifies_whatever_the_handler_does")
 RULE = ("histories over the event alphabet {start, stop, when:-/0/1/2, csucc:<hook outcome>, cfail, prepok, prepfail, "
-        "drop:0/1, adv:t}: breadth-first over the REAL service with state hashing (every event from every distinct "
-        "reached snapshot, depth 7 quick / 9 thorough, capped at 600 / 6000 distinct snapshots, with and without a prepareConnection hook) + random long "
-        "histories; distinct = (final machine state, set of (state,event-kind,outcome) triples seen, hook?)")
+        "drop:0/1, drop:<i>:<handler program> (the application protocol's connectionLost calls whenConnected/startService/"
+        "stopService and/or raises an Exception or BaseException), stop!/when:k! (consumer callback raises), "
+        "stop^/when:k^ (consumer callback calls startService), adv:t}: "
+        "breadth-first over the REAL service with state hashing (every event from every distinct "
+        "reached snapshot, depth 7 quick / 9 thorough, capped at 600 / 6000 distinct snapshots; three alphabets: no hook, "
+        "prepareConnection hook, no hook + connectionLost-handler programs) + random long "
+        "histories (every drop carries a handler program with probability 1/2) + random connection-churn histories (connect / "
+        "lose with a random handler program); distinct = (final machine state, set of "
+        "(state,event-kind incl. handler class,outcome) triples seen, hook?)")
 ASSUMES = [
     "endpoint.connect() returns an unfired Deferred that errbacks when cancelled (no synchronous results, no canceller that succeeds)",
     "callbacks on whenConnected/stopService Deferreds and the prepareConnection hook do not call back into the service "
-    "(automat raises RuntimeError for a re-entrant whenConnected/stopService; outside the statement's histories)",
+    "except by startService() "
+    "(automat raises RuntimeError for a re-entrant whenConnected/stopService; outside the statement's histories); they MAY raise "
+    "(stop! / when:k!) and they MAY call startService() (stop^ / when:k^)",
+    "the application protocol's connectionLost handler may raise anything and may call startService/stopService/whenConnected "
+    "(drop:<i>:<prog>); it does not call into the transport, the endpoint or the clock",
+    "the application protocol's makeConnection/connectionMade and factory.buildProtocol return normally (what a raising one "
+    "leads to is decided by the endpoint, before the attempt's Deferred fires); retryPolicy returns a number (it is called "
+    "inside the machine's state-data factory: a raising policy is a configuration fault outside the statement's histories); "
+    "transport.loseConnection returns normally",
     "whenConnected Deferreds are not cancelled by their consumer",
     "a transport reports connectionLost exactly once, some time after loseConnection (event drop:<i>)",
     "retry delays and clock advances are natural numbers (policy a*n+b in the tie; any function in the theorems)",
@@ -34,10 +58,14 @@ ASSUMES = [
 TRUSTED = ["automat 25.4 TypeMachineBuilder semantics as transcribed in App/ClientService.lean (postponed re-entrant inputs, "
            "data factory runs before the transition's method)"]
 MANIFEST = {
-    "text": "Lean model of makeMachine()'s transition table + _Core + the environment (endpoint attempt, open connections, "
-            "prepareConnection Deferred, clock). Proved by an inductive invariant over ALL histories that never use a rejecting "
+    "text": "Lean model of makeMachine()'s transition table + _Core + _ReconnectingProtocolProxy.connectionLost (application "
+            "handler first — it may re-enter the service and raise — then the notification, always) + the environment (endpoint "
+            "attempt, open connections, prepareConnection Deferred, clock). Proved by an inductive invariant over ALL histories that never use a rejecting "
             "or deferred prepareConnection hook: no event is rejected, at most one connection/attempt, retry delay = policy(#consecutive "
-            "failures), whenConnected waiters resolved by connection / failure limit / stop, stop Deferreds fire exactly when the "
+            "failures), a running service always has a connection, an attempt or a retry pending, every loss of a connection "
+            "nobody asked to close schedules the retry whatever the application's connectionLost handler does (re-entrant calls, "
+            "any exception), a consumer's re-entrant startService() from a Deferred callback is an ordinary start right after the firing "
+            "call (consumer_restart_is_a_start_event, ALL histories), whenConnected waiters resolved by connection / failure limit / stop, stop Deferreds fire exactly when the "
             "connection is closed; at-most-once firing for ALL histories. Counterexample theorems for the prepareConnection paths, "
             "replayed on the real service by the oracle.",
     "note": "the prepareConnection paths violate the property on the unchanged tree (findings prepare-drop-rejected, "
@@ -70,6 +98,60 @@ class _Transport:
         return None
 
 
+class _HandlerError(Exception):
+    """raised by the application protocol's connectionLost handler (program letter x)"""
+
+
+class _HandlerBase(BaseException):
+    """… a non-Exception class (program letter b): `except Exception` around the handler would not see it"""
+
+
+class _ConsumerError(Exception):
+    """raised by a consumer's callback on a whenConnected / stopService Deferred (stop! / when:k!)"""
+
+
+_ACTS = {"w": "when:-", "l": "when:1", "m": "when:2", "S": "start", "T": "stop"}
+
+
+class _App(Protocol):
+    """the application's protocol: its connectionLost runs the handler program chosen by the drop event"""
+
+    def __init__(self, world):
+        self.world = world
+
+    def connectionLost(self, reason=None):
+        w = self.world
+        prog, w.handler = w.handler, None
+        if not prog:
+            return
+        w.in_handler = True
+        try:
+            for ch in prog:
+                if ch == "x":
+                    raise _HandlerError("bug in application clean-up code")
+                if ch == "b":
+                    raise _HandlerBase("non-Exception raised by application clean-up code")
+                w._apply(_ACTS[ch])
+        finally:
+            w.in_handler = False
+
+
+class _AppFactory(Factory):
+    def __init__(self, world):
+        self.world = world
+
+    def buildProtocol(self, addr):
+        p = _App(self.world)
+        p.factory = self
+        return p
+
+
+def parse_drop(arg):
+    """'0' → (0, ''), '1:wTx' → (1, 'wTx')"""
+    i, _, prog = arg.partition(":")
+    return int(i), prog
+
+
 class _Endpoint:
     def __init__(self, world):
         self.world = world
@@ -99,6 +181,11 @@ class World:
         self.preps = []             # prepareConnection Deferreds (pending ones have .called False)
         self.nextprep = None
         self.waiters = []           # [ [status] ]
+        self.wlimits = []           # failAfterFailures of each waiter
+        self.handler = None         # program for the next application connectionLost
+        self.in_handler = False
+        self.dead_fire = None       # a top-level whenConnected answered with a connection that was already closed
+        self.restarts = 0           # consumer callbacks that called startService so far
         self.stops = []             # [ [status, attempts-at-call] ]
         self.policy_calls = []      # (n, returned delay)
         self.timer_log = []         # (time scheduled, delay) for every callLater seen
@@ -118,7 +205,7 @@ class World:
                 return d
             return None
 
-        self.factory = Factory.forProtocol(Protocol)
+        self.factory = _AppFactory(self)
         self.svc = ClientService(_Endpoint(self), self.factory, retryPolicy=policy, clock=self.clock,
                                  prepareConnection=prepare if hook else None)
 
@@ -132,7 +219,12 @@ class World:
     def pending_prep(self):
         return [d for d in self.preps if not d.called]
 
-    def _track_waiter(self, d):
+    def _restart(self, result):
+        self.restarts += 1
+        self.svc.startService()     # re-entrant when the Deferred fires inside a transition; a duplicate start only logs
+        return result
+
+    def _track_waiter(self, d, limit=None, angry=False, restart=False):
         st = ["p"]
         n = [0]
 
@@ -140,6 +232,8 @@ class World:
             n[0] += 1
             idx = [i for i, c in enumerate(self.conns) if c["app"] is proto]
             st[0] = ("c%d" % idx[0]) if idx else "c?"
+            if idx and self.conns[idx[0]]["t"].closed and not self.in_handler and self.dead_fire is None:
+                self.dead_fire = ([i for i, x in enumerate(self.waiters) if x is st][0], idx[0])
             if n[0] > 1:
                 st[0] = "TWICE"
 
@@ -149,18 +243,31 @@ class World:
             if n[0] > 1:
                 st[0] = "TWICE"
 
-        d.addCallbacks(ok, bad)
         self.waiters.append(st)
+        self.wlimits.append(limit)
+        d.addCallbacks(ok, bad)
+        if restart:
+            d.addBoth(self._restart)
+            d.addErrback(lambda f: None)
+        if angry:
+            d.addCallback(_angry)
+            d.addErrback(lambda f: f.trap(_ConsumerError) and None)
 
     def apply(self, ev):
         out = "ok"
         try:
             out = self._apply(ev)
+        except (_HandlerError, _HandlerBase):   # the application handler's own exception, as the reactor would see it
+            out = "!H"
         except Exception as e:  # an event rejected by the service
             out = "!" + type(e).__name__
         return out
 
     def _apply(self, ev):
+        angry = ev.endswith("!")
+        restart = ev.endswith("^")
+        if angry or restart:
+            ev = ev[:-1]
         k, _, arg = ev.partition(":")
         if k == "start":
             if self.svc.running:
@@ -171,12 +278,18 @@ class World:
         if k == "stop":
             d = self.svc.stopService()
             st = ["p", len(self.attempts)]
-            d.addCallback(lambda _: st.__setitem__(0, "d" if st[0] == "p" else "TWICE"))
             self.stops.append(st)
+            d.addCallback(lambda _: st.__setitem__(0, "d" if st[0] == "p" else "TWICE"))
+            if restart:
+                d.addCallback(self._restart)
+            if angry:
+                d.addCallback(_angry)
+                d.addErrback(lambda f: f.trap(_ConsumerError) and None)
             return "ok"
         if k == "when":
-            d = self.svc.whenConnected(None if arg == "-" else int(arg))
-            self._track_waiter(d)
+            lim = None if arg == "-" else int(arg)
+            d = self.svc.whenConnected(lim)
+            self._track_waiter(d, lim, angry, restart)
             return "ok"
         if k == "csucc":
             live = self.live_attempts()
@@ -209,12 +322,16 @@ class World:
             return "ok"
         if k == "drop":
             oc = self.open_conns()
-            i = int(arg)
+            i, prog = parse_drop(arg)
             if i >= len(oc):
                 return "skip"
             c = oc[i]
             c["t"].closed = True
-            c["proxy"].connectionLost(Failure(ConnectionResetError("lost")))
+            self.handler = prog
+            try:
+                c["proxy"].connectionLost(Failure(ConnectionResetError("lost")))
+            finally:
+                self.handler = None
             return "ok"
         if k == "adv":
             self.clock.advance(int(arg))
@@ -231,6 +348,10 @@ class World:
         w = ",".join(s[0] for s in self.waiters) or "-"
         s = ",".join(s[0] for s in self.stops) or "-"
         return f"{ms};{int(bool(self.svc.running))};{conns};{att};{timer};{fa};{w};{s}"
+
+
+def _angry(result):
+    raise _ConsumerError("bug in the consumer's callback")
 
 
 def play(case):
@@ -262,8 +383,8 @@ def _root(case, n, generic):
     for i, ev in enumerate(case["ev"][:n + 1]):
         prep = bool(w.pending_prep())
         att = bool(w.live_attempts())
-        kind, _, arg = ev.partition(":")
-        if kind == "drop" and prep and int(arg) < len(w.open_conns()) and w.open_conns()[int(arg)] is w.conns[-1]:
+        kind, _, arg = ev.rstrip("!^").partition(":")
+        if kind == "drop" and prep and parse_drop(arg)[0] < len(w.open_conns()) and w.open_conns()[parse_drop(arg)[0]] is w.conns[-1]:
             return "prepare-drop-rejected"
         if (kind == "prepfail" and prep) or (ev == "csucc:raise" and att):
             return "prepare-reject-leaks-connection"
@@ -284,14 +405,21 @@ def _check(case):
         pre_wait = [s[0] for s in w.waiters]
         pre_stop = [s[0] for s in w.stops]
         pre_connects = w.connects
+        pre_restarts = w.restarts
         where = f"event #{n} {ev}"
-        kind, _, arg = ev.partition(":")
+        kind, _, arg = ev.rstrip("!^").partition(":")
+        prog = parse_drop(arg)[1] if kind == "drop" else ""
         o = w.apply(ev)
 
         def bad(generic, detail):
             return {"key": _root(case, n, generic), "detail": f"{where}: {detail} [history {' '.join(case['ev'][:n + 1])}]"}
 
-        if o.startswith("!"):
+        if o == "!H":
+            # the application handler's own exception came back to the reactor: not the service's doing — but only
+            # a handler that was told to raise can be the source
+            if not prog.endswith(("x", "b")):
+                return bad("rejected-event", "an exception escaped although the application handler returned normally")
+        elif o.startswith("!"):
             return bad("rejected-event", f"raised {o[1:]}")
         if o == "skip" or o == "dup":
             continue
@@ -300,9 +428,11 @@ def _check(case):
             fails = 0
         elif kind in ("cfail", "prepfail") or (kind == "csucc" and arg == "raise"):
             fails += 1
-        elif kind == "drop" and not pre_conns[int(arg)]["t"].closing:
+        elif kind == "drop" and not pre_conns[parse_drop(arg)[0]]["t"].closing:
+            # a connection nobody asked to close was lost (the handler's own stopService, if any, asked for it
+            # before the loss was fully delivered: loseConnection has been called on that transport by now)
             fails += 1
-        if kind == "stop":
+        if kind == "stop" or "T" in prog:
             stop_called = True
         oc, la, pp = w.open_conns(), w.live_attempts(), w.pending_prep()
         # (1) one connection or attempt
@@ -317,10 +447,14 @@ def _check(case):
                     return bad("retry-delay", f"retry scheduled in {delay}, policy({fails}) = {a * fails + b}")
         if len(w.clock.getDelayedCalls()) > 1:
             return bad("two-timers", "two retries scheduled")
-        if w.connects > pre_connects and kind not in ("start", "adv", "drop"):
+        if w.connects > pre_connects and kind not in ("start", "adv", "drop") and w.restarts == pre_restarts:
             return bad("unexpected-attempt", "a connection attempt was started")
         if w.connects > pre_connects and kind == "adv" and w.clock.getDelayedCalls():
             return bad("unexpected-attempt", "attempt started while a retry is still scheduled")
+        # (2b) a started service is never idle: it has its connection, an attempt in progress, or a retry scheduled
+        if w.svc.running and not oc and not la and not pp and not w.clock.getDelayedCalls():
+            return bad("no-retry-scheduled",
+                       "the service is started but has no connection, no attempt in progress and no retry scheduled")
         # (3) whenConnected Deferreds
         now_wait = [s[0] for s in w.waiters]
         if "TWICE" in now_wait:
@@ -328,6 +462,9 @@ def _check(case):
         for i, (p, q) in enumerate(zip(pre_wait, now_wait)):
             if p != "p" and p != q:
                 return bad("waiter-result-changed", f"waiter {i} {p} -> {q}")
+        if w.dead_fire is not None:
+            return bad("waiter-got-dead-connection",
+                       f"whenConnected Deferred {w.dead_fire[0]} was answered with connection {w.dead_fire[1]}, which had already been lost")
         announced = (kind == "csucc" and arg in ("plain", "ok")) or kind == "prepok"
         if announced and "p" in now_wait:
             return bad("waiter-missed-connection", "a whenConnected Deferred is still pending after a connection was established")
@@ -355,14 +492,15 @@ def _check_limits(case):
     w = World(case["a"], case["b"], case["hook"])
     reg = {}                        # waiter index -> [limit, failures seen]
     for n, ev in enumerate(case["ev"]):
-        kind, _, arg = ev.partition(":")
+        kind, _, arg = ev.rstrip("!^").partition(":")
         before = len(w.waiters)
         had_att = bool(w.live_attempts()) or bool(w.pending_prep())
         o = w.apply(ev)
-        if o != "ok":
+        if o not in ("ok", "!H"):
             continue
-        if kind == "when" and arg != "-" and w.waiters[before][0] == "p":
-            reg[before] = [int(arg), 0]
+        for i in range(before, len(w.waiters)):     # registered by this event (directly, or from a connectionLost handler)
+            if w.wlimits[i] is not None and w.waiters[i][0] == "p":
+                reg[i] = [w.wlimits[i], 0]
         if had_att and (kind in ("cfail", "prepfail") or (kind == "csucc" and arg == "raise")):
             for i, r in reg.items():
                 if i < before or kind != "when":
@@ -391,10 +529,41 @@ def oracle(case, out):
 ALPHA_NOHOOK = ["start", "stop", "when:-", "when:1", "when:2", "csucc:plain", "cfail", "drop:0", "adv:1", "adv:5"]
 ALPHA_HOOK = ["start", "stop", "when:-", "when:1", "csucc:ok", "csucc:raise", "csucc:defer", "cfail", "prepok", "prepfail",
               "drop:0", "drop:1", "adv:5"]
+# the application protocol's connectionLost handler re-enters the service and/or raises; consumer callbacks raise
+ALPHA_HANDLER = ["start", "stop", "when:-", "when:1", "csucc:plain", "cfail", "adv:5", "drop:0",
+                 "drop:0:x", "drop:0:b", "drop:0:wx", "drop:0:l", "drop:0:T", "drop:0:Tx", "drop:0:TS", "drop:0:STwb",
+                 "stop!", "when:-!", "stop^", "when:-^"]
+
+
+def _random_prog(rng):
+    body = "".join(rng.choice("wlmSTT") for _ in range(rng.choice([0, 0, 1, 1, 2, 3])))
+    end = rng.choice(["x", "x", "b", ""]) if body else rng.choice(["x", "x", "b"])
+    return body + end
 
 
 def corpus():
     return [
+        # the application's connectionLost handler raises while an established connection drops (seeded change C58-2):
+        # the service must notice the loss, schedule the retry, make the next whenConnected wait, let stopService finish
+        {"a": 5, "b": 0, "hook": False, "ev": ["start", "csucc:plain", "when:-", "drop:0:x", "when:-", "adv:4", "adv:1",
+                                                "csucc:plain", "stop", "drop:0"]},
+        {"a": 1, "b": 1, "hook": False, "ev": ["start", "csucc:plain", "drop:0:b", "stop", "start", "cfail"]},
+        {"a": 1, "b": 1, "hook": False, "ev": ["start", "csucc:plain", "stop", "when:-", "drop:0:x", "when:1"]},
+        {"a": 1, "b": 1, "hook": False, "ev": ["start", "csucc:plain", "stop", "start", "when:2", "drop:0:wx", "csucc:plain"]},
+        # the handler calls back into the service before the service has been told about the loss
+        {"a": 1, "b": 2, "hook": False, "ev": ["start", "csucc:plain", "drop:0:Tx", "when:-", "start", "cfail", "adv:3"]},
+        {"a": 2, "b": 1, "hook": False, "ev": ["start", "cfail", "adv:3", "csucc:plain", "drop:0:TS", "cfail", "adv:3"]},
+        {"a": 1, "b": 1, "hook": False, "ev": ["start", "csucc:plain", "drop:0:lSb", "cfail", "adv:9", "csucc:plain"]},
+        {"a": 1, "b": 1, "hook": False, "ev": ["start", "csucc:plain", "stop", "drop:0:SwTb", "when:-", "start"]},
+        {"a": 1, "b": 1, "hook": True, "ev": ["start", "csucc:defer", "prepok", "drop:0:x", "adv:5", "csucc:ok", "stop", "drop:0:b"]},
+        # consumers restart the service from the callback of a stopService / whenConnected Deferred (re-entrant start)
+        {"a": 1, "b": 1, "hook": False, "ev": ["start", "cfail", "stop^", "cfail", "adv:9", "csucc:plain", "stop^", "when:-", "drop:0:x",
+                                                "csucc:plain"]},
+        {"a": 1, "b": 1, "hook": False, "ev": ["when:-^", "stop", "cfail", "stop^", "stop^", "when:1^", "start", "when:2^", "stop", "cfail"]},
+        {"a": 2, "b": 0, "hook": False, "ev": ["start", "when:-^", "csucc:plain", "stop", "when:-^", "stop^", "drop:0:TSwx", "csucc:plain"]},
+        # consumer callbacks on the Deferreds raise
+        {"a": 1, "b": 1, "hook": False, "ev": ["when:-!", "when:1!", "when:-", "start", "cfail", "adv:5", "csucc:plain",
+                                                "stop!", "stop", "drop:0", "when:-!"]},
         # the predicted witnesses (DESIGN §0 / candidate defect C58)
         {"a": 1, "b": 1, "hook": True, "ev": ["start", "csucc:defer", "drop:0"]},
         {"a": 1, "b": 1, "hook": True, "ev": ["start", "csucc:raise", "adv:5", "csucc:ok"]},
@@ -453,9 +622,33 @@ def _random_history(rng, hook, n):
     for _ in range(n):
         r = rng.random()
         if r < 0.85:
-            ev.append(rng.choice(alpha))
+            e = rng.choice(alpha)
         else:
-            ev.append(rng.choice(extra))
+            e = rng.choice(extra)
+        if e.startswith("drop:") and rng.random() < 0.5:
+            e += ":" + _random_prog(rng)            # the application's connectionLost handler re-enters / raises
+        elif (e == "stop" or e.startswith("when:")) and rng.random() < 0.3:
+            e += rng.choice("!^")                   # the consumer's callback raises / calls startService()
+        ev.append(e)
+    return ev
+
+
+def _churn_history(rng, hook, n):
+    """connections come and go: most events establish a connection or lose it while the application's handler
+    re-enters the service / raises; starts, stops, waiters and clock advances in between"""
+    ok = "csucc:ok" if hook else "csucc:plain"
+    ev = ["start"]
+    for _ in range(n):
+        r = rng.random()
+        if r < 0.30:
+            ev.append(ok)
+        elif r < 0.60:
+            ev.append("drop:0:" + _random_prog(rng))
+        elif r < 0.70:
+            ev.append(rng.choice(["adv:20", "adv:5", "adv:1"]))
+        else:
+            ev.append(rng.choice(["start", "stop", "stop!", "stop^", "when:-", "when:1", "when:2!", "when:-^", "when:1^", "cfail",
+                                  "drop:0", "adv:20"]))
     return ev
 
 
@@ -464,11 +657,16 @@ def generate(rng, tier):
     cap = 600 if tier == "quick" else 6000
     yield from _bfs(ALPHA_NOHOOK, False, depth, 1, 1, cap)
     yield from _bfs(ALPHA_HOOK, True, depth, 1, 1, cap)
+    yield from _bfs(ALPHA_HANDLER, False, depth, 1, 1, cap)
     n = 800 if tier == "quick" else 30000
     for i in range(n):
         hook = rng.random() < 0.5
         yield {"a": rng.choice([0, 1, 1, 2, 3]), "b": rng.choice([0, 1, 2, 7]), "hook": hook,
                "ev": _random_history(rng, hook, rng.choice([6, 10, 16, 25, 40]))}
+    for i in range(n // 2):
+        hook = rng.random() < 0.3
+        yield {"a": rng.choice([0, 1, 1, 2, 3]), "b": rng.choice([0, 1, 2, 7]), "hook": hook,
+               "ev": _churn_history(rng, hook, rng.choice([4, 8, 12, 20, 30]))}
 
 
 def shrink(case):
@@ -480,6 +678,14 @@ def shrink(case):
             yield dict(case, ev=ev[:i] + ["adv:5"] + ev[i + 1:])
         if e.startswith("when:") and e != "when:-":
             yield dict(case, ev=ev[:i] + ["when:-"] + ev[i + 1:])
+        if e[-1] in "!^":
+            yield dict(case, ev=ev[:i] + [e[:-1]] + ev[i + 1:])
+        if e.startswith("drop:") and e.count(":") == 2:
+            head, prog = e.rsplit(":", 1)
+            yield dict(case, ev=ev[:i] + [head] + ev[i + 1:])
+            for j in range(len(prog)):
+                if len(prog) > 1:
+                    yield dict(case, ev=ev[:i] + [head + ":" + prog[:j] + prog[j + 1:]] + ev[i + 1:])
     if (case["a"], case["b"]) != (1, 1):
         yield dict(case, a=1, b=1)
 
@@ -487,6 +693,16 @@ def shrink(case):
 def search(rng, tier, disagreeing):
     yield from _bfs(ALPHA_HOOK, True, 7, 1, 1, 3000)
     yield from _bfs(ALPHA_NOHOOK, False, 7, 1, 1, 3000)
+    yield from _bfs(ALPHA_HANDLER, False, 6, 1, 1, 3000)
+
+
+def _kind(ev):
+    """event kind for the class signature; a drop with a handler program: which calls it makes and how it ends"""
+    k, _, arg = ev.partition(":")
+    if k == "drop" and ":" in arg:
+        prog = arg.split(":")[1]
+        return "drop[" + "".join(sorted(set(prog.replace("l", "w").replace("m", "w")))) + "]"
+    return k + ("!" if ev.endswith("!") else "^" if ev.endswith("^") else "")
 
 
 def tag(case, out):
@@ -497,7 +713,7 @@ def tag(case, out):
     prev = "Init"
     for ev, st in zip(case["ev"], steps):
         o, _, snap = st.partition("/")
-        triples.add((prev, ev.split(":")[0], o))
+        triples.add((prev, _kind(ev), o))
         prev = snap.split(";")[0]
     h = hashlib.sha1(repr(sorted(triples)).encode()).hexdigest()[:6]
     return f"{'hook' if case['hook'] else 'nohook'}:{prev}:{len(triples)}:{h}"
